@@ -296,10 +296,21 @@ func VerifC05OpenGate() {
 	verifAssume(tr.Start >= 0 && tr.Start < tr.End)
 	opened := 0
 	no := false
+	errOnUnauth := verifBool("err-on-unauthorized-open")
+	type snap struct {
+		tr      telem.TimeRange
+		curr    *vGate
+		ngates  int
+		counter uint
+	}
+	var snaps []snap
+	for _, r := range before {
+		snaps = append(snaps, snap{r.timeRange, r.curr, len(r.gates), uint(r.counter)})
+	}
 	cfg := GateConfig[verifRes]{
 		OpenResource:          func() (verifRes, error) { opened++; return verifRes{k: 99}, nil },
 		ErrIfControlled:       &no,
-		ErrOnUnauthorizedOpen: &no,
+		ErrOnUnauthorizedOpen: &errOnUnauth,
 		Subject:               control.Subject{Key: "new"},
 		TimeRange:             tr,
 		Authority:             control.Authority(verifUint8("newauth")),
@@ -319,12 +330,30 @@ func VerifC05OpenGate() {
 			verifAssert("opengate-new-region-holds-gate", g.region.curr == g && g.region.timeRange == tr && g.region.resource.k == 99)
 		}
 	case 1:
+		reg := before[overlapping[0]]
+		// with ErrOnUnauthorizedOpen the open is refused unless the new gate takes control (or, on shared
+		// channels, ties with the holder)
+		takes := cfg.Authority > snaps[overlapping[0]].curr.authority
+		ties := c.Concurrency == control.ConcurrencyShared && cfg.Authority == snaps[overlapping[0]].curr.authority
+		if errOnUnauth && !takes && !ties {
+			verifAssert("opengate-unauthorized-open-refused", err != nil && g == nil)
+			sn := snaps[overlapping[0]]
+			verifAssert("refused-open-has-no-effect", reg.timeRange == sn.tr && reg.curr == sn.curr && len(reg.gates) == sn.ngates)
+			break
+		}
 		verifAssert("opengate-joins-existing", err == nil && g != nil && opened == 0 && len(c.regions) == nr)
 		if err == nil && g != nil {
 			verifAssert("opengate-joined-the-overlapping-region", g.region == before[overlapping[0]] && g.region.gates.Contains(g))
 		}
 	default:
 		verifAssert("opengate-two-regions-refused", err != nil && opened == 0)
+		unchanged := len(c.regions) == nr
+		for i, r := range before {
+			if r.timeRange != snaps[i].tr || r.curr != snaps[i].curr || len(r.gates) != snaps[i].ngates {
+				unchanged = false
+			}
+		}
+		verifAssert("refused-open-has-no-effect", unchanged)
 	}
 	for i := 1; i < len(c.regions); i++ {
 		verifAssert("regions-sorted-by-start", c.regions[i-1].timeRange.Start <= c.regions[i].timeRange.Start)
